@@ -145,6 +145,9 @@ func propC11(t *rapid.T) {
 	c.Env = genEnv(t)
 	c.Primers = genStaticPrimers(t)
 	classes, nt := c11Classify(f)
+	if info.DSTEdges > 0 {
+		classes = append(classes, "exception-one-day-outside-range-across-a-clock-change")
+	}
 	c11Rec.Eval(classes...)
 	if info.MovedDates > 0 {
 		c11Rec.Exclude("date without a unique local midnight moved to the next day")
